@@ -1,5 +1,5 @@
 (* AcceptProofs.v - C17 *)
-From Coq Require Import List NArith Bool Lia ZifyN ZifyNat ZifyBool.
+From Coq Require Import List NArith Bool Lia ZifyN ZifyNat ZifyBool FinFun.
 Require Import Accept.
 Import ListNotations.
 Open Scope N_scope.
@@ -109,4 +109,35 @@ Proof.
       * destruct IH as [pre [x [rest [-> [Hp Hx]]]]]. exists (AConn false :: pre), x, rest. repeat split; auto.
       * destruct IH as [pre [rest [-> Hp]]]. exists (AConn false :: pre), rest. split; auto.
       * constructor; auto.
+Qed.
+
+(* ---- session ids (C09): the served connections get consecutive numbers in accept order ---- *)
+Lemma accept_loop_served rs : forall delay n,
+  served (fst (accept_loop rs delay n)) = seq n (length (served (fst (accept_loop rs delay n)))).
+Proof.
+  induction rs as [|[done|done|done] r IH]; intros delay n; cbn [accept_loop]; try reflexivity.
+  - destruct done; [reflexivity|].
+    specialize (IH (next_delay delay) n). destruct (accept_loop r (next_delay delay) n) as [acts res]. cbn [fst] in *.
+    cbn [served flat_map app]. exact IH.
+  - destruct done; reflexivity.
+  - destruct done; [reflexivity|].
+    specialize (IH 0 (S n)). destruct (accept_loop r 0 (S n)) as [acts res]. cbn [fst] in *.
+    cbn [served flat_map app length seq]. fold (served acts). f_equal. exact IH.
+Qed.
+
+Lemma session_id_inj i j : session_id i = session_id j -> i = j.
+Proof. unfold session_id. lia. Qed.
+
+Theorem session_ids_consecutive rs :
+  map session_id (served (fst (serve rs))) =
+  map (fun k => N.of_nat k) (seq 1 (length (served (fst (serve rs))))).
+Proof.
+  unfold serve. rewrite accept_loop_served. rewrite seq_length.
+  generalize (length (served (fst (accept_loop rs 0 0)))) as m. intros m.
+  rewrite <- seq_shift, map_map. reflexivity.
+Qed.
+
+Theorem session_ids_distinct rs : NoDup (map session_id (served (fst (serve rs)))).
+Proof.
+  unfold serve. rewrite accept_loop_served. apply Injective_map_NoDup; [intros i j; apply session_id_inj|apply seq_NoDup].
 Qed.
